@@ -45,6 +45,7 @@ def run(res):
     n_setup = 600 if quick else 8000
     n_chan = 150 if quick else 1500
     n_life = 140 if quick else 2100
+    n_wire = 300 if quick else 6000
     commit, setup, chan, stats = [], [], [], []
     for prof in profiles:
         r = lib.run_harness("policy", "commit", res.seed, n_commit, res.tier, profile=prof)
@@ -59,6 +60,10 @@ def run(res):
     r = lib.run_harness("policy", "life", res.seed, n_life, res.tier)
     life = r["CASE"]
     stats += r.get("STATS", [])
+    r = lib.run_harness("policy", "wire", res.seed, n_wire, res.tier)
+    wire = r["CASE"]
+    stats += r.get("STATS", [])
+    life = life + wire     # same case type (life_case), same checker
 
     cterms = [c["coq"] for c in commit]
     sterms = [c["coq"] for c in setup]
@@ -75,11 +80,16 @@ def run(res):
     mon_setup = [c for c in setup if c["monitor_violation"]]
     mon_chan = [c for c in chan if c["monitor_violation"]]
     mon_life = [c for c in life if c["monitor_violation"]]
-    for c in mon_life[:2]:
+    for c in [c for c in mon_life if c["kind"] == "life"][:2]:
         res.violation("a commitment was signed / accepted on a channel whose setup did not pass validate_setup_channel "
                       "(new_channel, setup_channel refused, then requests on the same channel id): "
                       + "; ".join(c["monitor_violation"][:3]),
                       {"domain": "policy-life", "seed": res.seed, "case": _strip(c)})
+    for c in [c for c in mon_life if c["kind"] == "wire"][:2]:
+        res.violation("channel set up through the wire (NewChannel, SetupChannel): the ChannelSetup differs from the "
+                      "message, or an initial commitment outside the bounds computed from the wire values was accepted: "
+                      + "; ".join(c["monitor_violation"][:3]),
+                      {"domain": "policy-wire", "seed": res.seed, "case": _strip(c)})
     # end-to-end first: a real channel signing the commitment
     for c in mon_chan[:2]:
         res.violation("counterparty commitment outside the policy bounds was signed by "
@@ -135,8 +145,8 @@ def run(res):
         shown += 1
         model = lib.coq_eval(IMPORTS, "life_model (%s)" % c["coq"], "c05_show")
         res.violation("setup_channel / commitment requests on one channel id disagree with the model's lifecycle "
-                      "(correspondence policy-life); 0 ok, 1 panic, 2 refused",
-                      {"correspondence": "policy-life", "theorem": "C05_usable_only_after_setup", "case": _strip(c),
+                      "(correspondence policy-%s); 0 ok, 1 panic, 2 refused" % c["kind"],
+                      {"correspondence": "policy-" + c["kind"], "theorem": "C05_usable_only_after_setup", "case": _strip(c),
                        "model": model[-300:]}, has_input=False)
     shown = 0
     for j in fh:
@@ -173,9 +183,17 @@ def run(res):
                 "setup_channel refused for each modelled reason (each delay below/above, unsafe type, foreign shutdown "
                 "script; accepted as control), then sign_counterparty_commitment_tx_phase2 and "
                 "validate_holder_commitment_tx_phase2 (with a genuine counterparty signature) for commitment 0, a retry of "
-                "the refused setup, a good setup, the requests again, the first setup again. Non-trivial = structured case (base "
+                "the refused setup, a good setup, the requests again, the first setup again. wire: NewChannel to the RootHandler and SetupChannel to the "
+                "ChannelHandler (as_vec -> from_vec, protocol 4/5/6) with every field varied (role, value, push in msat "
+                "incl. 0.1% of the channel and above the channel, txid/vout, both delays, shutdown scripts, remote keys, "
+                "channel_type bits incl. anchors / zero-fee / padding), mostly valid with one kind of field over an edge; "
+                "the ChannelSetup is read back and compared field by field with the message; SignRemoteCommitmentTx2 for "
+                "commitment 0 giving the fundee 1000x the push / the msat figure / push+1 / the push, then "
+                "ValidateCommitmentTx2 with a genuine counterparty signature; bounds computed from the wire values. "
+                "Non-trivial = structured case (base "
                 "or boundary-mutated; every setup and chan step), distinct by full Coq term.",
-        "samples": [_strip(commit[2]) if len(commit) > 2 else None, _strip(setup[0]), _strip(chan[0]), _strip(life[1])],
+        "samples": [_strip(commit[2]) if len(commit) > 2 else None, _strip(setup[0]), _strip(chan[0]), _strip(life[1]),
+                    _strip(wire[0])],
         "traces_validated_against_impl": len(commit) + len(setup) + len(hterms) + len(life),
         "correspondence_disagreements": len(fc) + len(fs) + len(fh) + len(fl),
         "disagreements_by_domain": {"commit": len(fc), "setup": len(fs), "chan": len(fh), "life": len(fl)},
